@@ -6,179 +6,66 @@ fn emit_choice(
     continuation_path: Option<&str>,
     context: &EmitContext,
 ) -> Result<(), CompilerError> {
-    let has_ev_content = !choice.start_text.is_empty()
-        || !choice.start_tags.is_empty()
-        || !choice.choice_only_text.is_empty()
-        || !choice.choice_only_tags.is_empty()
-        || !choice.conditions.is_empty();
-
-    if has_ev_content {
-        out.push(json!("ev"));
-        emit_choice_text_segment(
-            &choice.start_text,
-            &choice.start_tags,
-            &mut out.content,
-            scope,
-            context,
-        )?;
-        emit_choice_text_segment(
-            &choice.choice_only_text,
-            &choice.choice_only_tags,
-            &mut out.content,
-            scope,
-            context,
-        )?;
-        for (index, condition) in choice.conditions.iter().enumerate() {
-            emit_condition(condition, &mut out.content, scope, context)?;
-            if index > 0 {
-                out.push(json!("&&"));
-            }
-        }
-        out.push(json!("/ev"));
-    }
-
     let branch_name = format!("c-{choice_index}");
     let branch_scope = scope.choice_branch(&branch_name);
     let choice_ptr = branch_scope.path.clone();
-    out.push(json!({"*": choice_ptr, "flg": choice_flags(choice)}));
 
-    let mut branch_nodes = Vec::new();
-    let mut body_already_emitted = false;
-    if let Some(selected_text) = &choice.selected_text {
-        let recovered_inline_divert = if choice.body.is_empty() {
-            recover_selected_text_inline_divert(selected_text)
-        } else {
-            None
-        };
-
-        // The start content is repeated in the output line, its tags included. The tags
-        // belong to the line of the choice: they come before a divert on the choice line.
-        let tags = choice
-            .start_tags
-            .iter()
-            .chain(&choice.selected_tags)
-            .cloned()
-            .map(Node::Tag);
-        if choice.has_choice_only_content
-            && !choice.has_start_content
-            && choice.body_divert_is_inline
-            && matches!(choice.body.as_slice(), [Node::Divert(_)])
-        {
-            branch_nodes.extend(tokenize_inline_content(&format!(" {selected_text}"))?);
-            branch_nodes.extend(tags);
-            branch_nodes.extend(choice.body.clone());
-            branch_nodes.push(Node::Newline);
-            body_already_emitted = true;
-        } else if let Some((text, target)) = recovered_inline_divert {
-            if !text.is_empty() {
-                branch_nodes.extend(tokenize_inline_content(&text)?);
-            }
-            branch_nodes.extend(tags);
-            branch_nodes.push(Node::Divert(Divert {
-                target,
-                arguments: Vec::new(),
-            }));
-            body_already_emitted = true;
-        } else {
-            branch_nodes.extend(tokenize_inline_content(selected_text)?);
-            branch_nodes.extend(tags);
-        }
-        if !body_already_emitted {
-            // Skip the auto-newline for terminal diverts.
-            let body_is_terminal_divert = matches!(
-                choice.body.as_slice(),
-                [Node::Divert(d)] if d.target == "END" || d.target == "DONE"
-            );
-            if choice.body_divert_is_inline && !choice.body.is_empty() {
-                // A divert written on the choice line comes before the line break that
-                // ends the line (the selected text keeps the blanks before the arrow):
-                // the text joins the first line of the target.
-                branch_nodes.push(choice.body[0].clone());
-                branch_nodes.push(Node::Newline);
-                branch_nodes.extend(choice.body[1..].iter().cloned());
-                body_already_emitted = true;
-            } else if !body_is_terminal_divert {
-                branch_nodes.push(Node::Newline);
-            }
-        }
-    } else if choice.has_choice_only_content
-        && !choice.has_start_content
-        && matches!(choice.body.as_slice(), [Node::Divert(_)])
-    {
-        // choice-only with single divert body:
-        // - inline divert (same line): "^ " then divert then "\n" (inklecate behavior)
-        // - body divert (indented line): "\n" then divert
-        if choice.body_divert_is_inline {
-            branch_nodes.push(Node::Text(" ".to_owned()));
-            branch_nodes.extend(choice.body.clone());
-            branch_nodes.push(Node::Newline);
-        } else {
-            branch_nodes.push(Node::Newline);
-            branch_nodes.extend(choice.body.clone());
-        }
-        body_already_emitted = true;
-    } else if choice.has_choice_only_content
-        && !choice.has_start_content
-        && branch_nodes.is_empty()
-        && !choice.body.is_empty()
-    {
-        // choice-only with multi-node body: "\n" then body
-        branch_nodes.push(Node::Newline);
-        branch_nodes.extend(choice.body.clone());
-        body_already_emitted = true;
-    } else if choice.has_choice_only_content && !choice.has_start_content && choice.body.is_empty()
-    {
-        // choice-only with completely empty body: inklecate always opens the c-N
-        // container with a "\n" (representing the line break after the user selects).
-        branch_nodes.push(Node::Newline);
-        body_already_emitted = true;
-    }
-    if !body_already_emitted {
-        // The choice line ends in a line break, also when it is a fallback choice
-        // without text (`* ->` followed by content lines): the content starts a new line.
-        if choice.is_invisible_default && !choice.body_divert_is_inline {
-            branch_nodes.push(Node::Newline);
-        }
-        branch_nodes.extend(choice.body.clone());
-    }
-
-    // Check if branch body contains nested choices (at any position)
-    let has_nested_choices = branch_nodes.iter().any(|n| matches!(n, Node::Choice(_)));
-    let mut branch_container = if has_nested_choices {
-        // Pass continuation_path as fallback so nested choice blocks and their
-        // gather continuations can inherit the outer continuation.
-        emit_nodes_with_continuation(&branch_nodes, &branch_scope, context, continuation_path)?
+    // Index of the next token of `out` in the finished container.
+    let header_idx = out.content.len() + scope.param_offset;
+    if choice.has_start_content {
+        // The start content is one container, run for the text of the choice and
+        // again for the output line: a sequence in it has one counter, not two.
+        let header_scope = scope.at_path(joined_path(&scope.path, header_idx));
+        out.push(emit_wrapped_loop_choice_header(
+            choice,
+            &header_scope,
+            choice_index,
+            header_idx,
+            &scope.path,
+            context,
+        )?);
     } else {
-        emit_nodes(&branch_nodes, &branch_scope, context)?
-    };
-    if let Some(token) = loose_end_append_for_nodes(
-        &branch_nodes,
-        has_nested_choices,
-        continuation_path,
-        None,
-        false,
-        LooseEndNoFallback::None,
-    ) {
-        branch_container.push(token);
+        let has_ev_content = !choice.start_tags.is_empty()
+            || !choice.choice_only_text.is_empty()
+            || !choice.choice_only_tags.is_empty()
+            || !choice.conditions.is_empty();
+
+        if has_ev_content {
+            out.push(json!("ev"));
+            emit_choice_text_segment("", &choice.start_tags, &mut out.content, scope, context)?;
+            emit_choice_text_segment(
+                &choice.choice_only_text,
+                &choice.choice_only_tags,
+                &mut out.content,
+                scope,
+                context,
+            )?;
+            for (index, condition) in choice.conditions.iter().enumerate() {
+                emit_condition(condition, &mut out.content, scope, context)?;
+                if index > 0 {
+                    out.push(json!("&&"));
+                }
+            }
+            out.push(json!("/ev"));
+        }
+
+        out.push(json!({"*": choice_ptr, "flg": choice_flags(choice)}));
     }
-    let extra_flags = context
-        .flow_count_flags
-        .get(&choice_ptr)
-        .copied()
-        .unwrap_or(0);
-    let mut flags = 0;
-    if choice.once_only || context.count_all_visits || (extra_flags & COUNT_VISITS != 0) {
-        flags |= COUNT_VISITS;
-    }
-    if extra_flags & COUNT_TURNS != 0 {
-        flags |= COUNT_TURNS;
-    }
-    // CountStartOnly (4) is always set for choices but only serialized when
-    // accompanied by Visits or Turns (lone CountStartOnly is meaningless).
-    let count_flags = if flags > 0 { Some(flags | 4) } else { None };
+
     out.insert_named(
         branch_name,
-        branch_container.into_json_array(None, count_flags)?,
+        emit_wrapped_loop_choice_body(
+            choice,
+            &branch_scope,
+            WrappedLoopChoiceBodyConfig {
+                choice_index,
+                header_idx,
+                choices_prefix: &scope.path,
+                continuation_path,
+                continuation_terminal: None,
+            },
+            context,
+        )?,
     );
 
     Ok(())
